@@ -7,6 +7,11 @@ HARNESS = "Python harness (case generators, implementation runner, Gallina liter
 
 PROPS = {
     "C07": {
+        "manifest": {
+            "technique": "machine-checked proof in Coq (invariants over all KeyFile histories) + model/implementation correspondence by vm_compute",
+            "text": "Seven theorems over the KeyFile state machine (coq/theories/KeyFile.v) for all histories, all numbers of objects and all file contents: valid file used verbatim and never written, missing file created exactly once with the first random draw, malformed file rejected on every open with no cipher call ever succeeding, closed objects hold no key, ciphers only inside a context, nested contexts share the key. The model is tied to encryption.py by running the same histories on real files and comparing every step inside Coq.",
+            "note": "Trusted: Coq kernel + vm_compute; the correspondence harness; the one-file file-system abstraction and the recorded os.urandom stream. No axioms (Print Assumptions: closed under the global context).",
+            "design_ref": "DESIGN.md section 6 C07"},
         "streams": ["keyfile"],
         "witnesses": ["F2"],
         "rule": ("bounded-exhaustive matrix (every history up to the tier's length over {enter,exit,xor-encrypt} x 2 objects "
@@ -20,6 +25,11 @@ PROPS = {
                         "KeyFile.generate_key() (explicit regeneration by the user) is not in the operation alphabet"],
     },
     "C08": {
+        "manifest": {
+            "technique": "machine-checked proof in Coq (XOR involution, PKCS7 and CBC round trips over an abstract invertible block cipher, layout and rejection theorems) + byte-for-byte model/implementation correspondence by vm_compute",
+            "text": "Eight theorems in coq/theories/Crypto*.v for all keys, all byte strings and all IVs: xor is its own inverse with the key repeated, unpad(pad p) = p, CBC decryption inverts CBC encryption for any block cipher with D(E b) = b, hence the AES provider round trip; ciphertext layout iv ++ body with |body| = 16(|p|/16+1); ciphertexts shorter than 32 bytes or not block-aligned are rejected; the recorded method is concrete. The model computes IV layout, padding and chaining itself and is compared byte for byte with encryption.py under a recorded os.urandom, with single-block AES results taken from cryptography's ECB primitive directly.",
+            "note": "Trusted: Coq kernel + vm_compute; the correspondence harness; the AES-256 block primitive enters as a hypothesis (inverse law) and as a per-case table; 'a different key never yields the plaintext' is cryptographic and only sampled. No axioms.",
+            "design_ref": "DESIGN.md section 6 C08"},
         "streams": ["crypto"],
         "witnesses": [],
         "rule": ("deterministic matrix (2 keys x 4 methods x 12 boundary plaintext lengths) plus seeded random cases: "
@@ -34,6 +44,11 @@ PROPS = {
                         "SecureField.to_python shape checks are covered with the fields stream (C05/C03), not here"],
     },
     "C18": {
+        "manifest": {
+            "technique": "machine-checked proof in Coq (deep-merge characterisation by induction on trees; include processing equals load of the merged tree) + model/implementation correspondence by vm_compute on real include files",
+            "text": "Nine theorems in coq/theories/Tree*.v for all trees: lookup in the merged tree (included value wins, maps merge recursively, map/non-map conflicts go to the included side), key set and order of the merge, include at the root and in a nested scope equals the scope-local merge, a failing include fails the load, absent/None include names change nothing. Model tied to IncludeField.combine_trees and Config._process_includes by running the same trees, schemas and real files and comparing inside Coq; purity of combine_trees decided on the implementation by deep-copy comparison.",
+            "note": "Trusted: Coq kernel + vm_compute; the correspondence harness; file-name validation/open/parse of an included file is an oracle (Section variable) answered from the real files. Dict keys distinct (NoDup hypothesis). No axioms.",
+            "design_ref": "DESIGN.md section 6 C18"},
         "streams": ["merge", "includes"],
         "witnesses": ["F19"],
         "rule": ("merge: 36-case matrix over {absent, leaf, null, empty map, map, map'} x same under one key, plus seeded random "
@@ -49,3 +64,12 @@ PROPS = {
                         "the third-party parsers are trusted to parse what they are given"],
     },
 }
+
+
+# every harness/reg_Cxx.py contributes one property: SPEC = {"streams": [...], "witnesses": [...], "rule": ..., ...}
+import glob as _glob
+import importlib as _importlib
+import os as _os
+for _f in sorted(_glob.glob(_os.path.join(_os.path.dirname(_os.path.abspath(__file__)), "reg_C*.py"))):
+    _m = _importlib.import_module(_os.path.basename(_f)[:-3])
+    PROPS[_m.PROP] = _m.SPEC
